@@ -119,6 +119,8 @@ def falsy_mol():
     m.add_atom(a, [0.0, 0.0, 0.0], 0.0)
     m.add_atom(b, [0.0, 0.0, 0.0], 0.0)
     m.connect(0, 1, label="", btype=ml.BondType.Unknown, stereo=ml.BondStereo.Unknown, f_order=0.0)
+    # a second bond between the same two atoms (reversed): both bonds are part of the object
+    m.append_bond(ml.Bond(m.atoms[1], m.atoms[0], label="parallel", btype=ml.BondType.Double))
     return m
 
 
